@@ -80,6 +80,46 @@ func H_C13_nexus() {
 	sxReach("checked")
 }
 
+// H_C13_nexus_many: a list long enough for generated tree names to leave
+// lexicographic order (tree10 < tree2): written as Nexus and read back, every
+// tree comes back at its position.
+func H_C13_nexus_many() {
+	k := sxParam("ntrees", 12)
+	translate := sxChoose("translate", 2) == 1
+	src := make([]*tree.Tree, k)
+	ch := make(chan tree.Trees, k)
+	shapeCode = -1
+	for i := range src {
+		// three-taxon stars told apart by their branch lengths; one length symbolic
+		t := buildTree(genShape(3, false), 0)
+		for j, e := range t.Edges() {
+			e.SetLength(float64(1 + i*3 + j))
+		}
+		if i == sxParam("symtree", 10) {
+			l := sxLen("len")
+			sxAssume(l >= 0)
+			t.Edges()[0].SetLength(l)
+		}
+		src[i] = t
+		ch <- tree.Trees{Tree: t, Id: i}
+	}
+	close(ch)
+	sxReach("ready")
+	text, err := nexus.WriteNexus(ch, translate)
+	sxAssert(err == nil, "WriteNexus succeeds")
+	id := 0
+	for rec := range utils.ReadMultiTrees(bufio.NewReader(strings.NewReader(text)), utils.FORMAT_NEXUS) {
+		sxAssert(rec.Err == nil && rec.Tree != nil, "multi-tree reader delivers trees")
+		sxAssert(rec.Id == id, "consecutive identifiers")
+		if id < k && rec.Tree != nil {
+			c01same(src[id].Root(), nil, rec.Tree.Root(), nil, nil, nil)
+		}
+		id++
+	}
+	sxAssert(id == k, "multi-tree reader delivers every tree")
+	sxReach("checked")
+}
+
 // H_C13_nexus_names: a hand-written TREES block whose tree names come in any
 // order (and may repeat): trees are delivered in file order under their names.
 func H_C13_nexus_names() {
